@@ -26,6 +26,9 @@ import (
 // answer" (see Default).  The returned response is sent as is.
 type Script func(s *Server, sc *uasc.SecureChannel, req ua.Request) ua.Response
 
+// NoAnswer, returned by a Script, means: send nothing for this request.
+var NoAnswer ua.Response = &ua.ServiceFault{}
+
 // Server is one listening scripted server.
 type Server struct {
 	Cert   []byte
@@ -150,6 +153,9 @@ func (s *Server) serve(ctx context.Context, c *uacp.Conn) {
 		var resp ua.Response
 		if s.Script != nil {
 			resp = s.Script(s, sc, req)
+		}
+		if resp == NoAnswer {
+			continue
 		}
 		if resp == nil {
 			resp = Default(s, sc, req)
